@@ -292,7 +292,9 @@ private:
             t.value_ref = get_optional_string_attribute(root, "valueRef");
             t.constant_value = get_optional_node_content(root);
 
-            if((t.primitive_type == "char") && root.attribute("length").empty())
+            // the value can also come from `valueRef`, there is no content then
+            if((t.primitive_type == "char") && root.attribute("length").empty()
+               && t.constant_value)
             {
                 t.length = t.constant_value->size();
             }
